@@ -1,13 +1,18 @@
 // C17 — stale-lock detection is sound: live locks are safe, dead ones recover.
 //
 // (a) live holder, on-time mode: heart beats are never late; observers poll IsStale / ReleaseIfStale / TryLock at
-//     every phase of the heart-beat cycle; every interleaving within the deviation bound; nothing may be reported
-//     stale, released or taken over.
+//
+//	every phase of the heart-beat cycle; every interleaving within the deviation bound; nothing may be reported
+//	stale, released or taken over.
+//
 // (b) live holder, adversarial mode: the heart beat may be starved by delaying ticks; oracle = first sentence of the
-//     property literally: a stale verdict needs more than two periods without any heart-beat write.
+//
+//	property literally: a stale verdict needs more than two periods without any heart-beat write.
+//
 // (c) death points: the holder's process stops before / during (short write) every one of its backend operations;
-//     then the lock must be reported stale within 2 periods + 2 ms, ReleaseIfStale + a new acquire must succeed, and
-//     two racing recoverers must not wedge the lock.
+//
+//	then the lock must be reported stale within 2 periods + 2 ms, ReleaseIfStale + a new acquire must succeed, and
+//	two racing recoverers must not wedge the lock.
 package c17
 
 import (
@@ -16,6 +21,7 @@ import (
 	"fmt"
 	"os"
 	"runtime"
+	"sort"
 	"strings"
 	"testing"
 	"time"
@@ -599,6 +605,8 @@ func TestC17(t *testing.T) {
 		return
 	}
 	scs := scenarios()
+	// small-bound scenarios first: a deadline met on a loaded machine then cuts the tail of the big explorations, not these
+	sort.SliceStable(scs, func(i, j int) bool { return scs[i].Bound < scs[j].Bound })
 	var gs []gosim.Scenario
 	for _, sc := range scs {
 		gs = append(gs, toScenario(sc))
